@@ -39,6 +39,8 @@ func rulesC03(c *Ctx) {
 	ruleCounterPrimitives(c)
 	ruleCounterCallers(c)
 	ruleStateWriters(c, writersRIB)
+	// the entry whose references are released is the entry that is removed: lookups and mutations use the key as handed in (shared with C01)
+	ruleTableKeyIdentity(c)
 }
 
 // R3.0
@@ -1155,11 +1157,23 @@ func ruleCounterPrimitives(c *Ctx) {
 		c.Sites++
 		onField := func(e ast.Expr) bool {
 			ie, ok := ast.Unparen(e).(*ast.IndexExpr)
-			if !ok || objOfIdent(info, ie.Index) != p0 {
+			if !ok || frameArgRoot(info, fi.Decl, objOfIdent(info, ie.Index)) != p0 {
 				return false
 			}
 			se, ok := ast.Unparen(ie.X).(*ast.SelectorExpr)
 			return ok && se.Sel.Name == t.fld
+		}
+		// an assignment that only defines locals (e.g. the parameter bindings of a spliced-in helper) changes no counter
+		definesLocals := func(as *ast.AssignStmt) bool {
+			if as.Tok != token.DEFINE {
+				return false
+			}
+			for _, l := range as.Lhs {
+				if _, ok := l.(*ast.Ident); !ok {
+					return false
+				}
+			}
+			return true
 		}
 		good, why := false, ""
 		switch t.kind {
@@ -1171,9 +1185,16 @@ func ruleCounterPrimitives(c *Ctx) {
 					n++
 					good = s.Tok == token.INC && onField(s.X)
 				case *ast.AssignStmt:
+					if definesLocals(s) {
+						break
+					}
 					n++
 					good = false
-				case *ast.IfStmt, *ast.SwitchStmt, *ast.ReturnStmt:
+				case *ast.ReturnStmt:
+					if len(s.Results) > 0 {
+						n += 10
+					}
+				case *ast.IfStmt, *ast.SwitchStmt:
 					n += 10
 				}
 				return true
@@ -1189,7 +1210,7 @@ func ruleCounterPrimitives(c *Ctx) {
 					} else if _, ok := m.(*ast.IncDecStmt); ok {
 						out = append(out, Event{Kind: "other", Node: m})
 					}
-					if _, ok := m.(*ast.AssignStmt); ok {
+					if as, ok := m.(*ast.AssignStmt); ok && !definesLocals(as) {
 						out = append(out, Event{Kind: "other", Node: m})
 					}
 					return true
@@ -1213,25 +1234,36 @@ func ruleCounterPrimitives(c *Ctx) {
 			// holding the comparison are inlined by the translator)
 			good = true
 			nret := 0
-			uq := 0
-			xl := &condXlat{info: info, fd: fi.Decl, uniq: &uq}
 			counter := recvName(fi) + ".refCounts." + t.fld + "[" + p0.Name() + "]"
-			inspectNoFuncLit(fi.Decl.Body, func(m ast.Node) bool {
-				rs, ok := m.(*ast.ReturnStmt)
-				if !ok {
-					return true
+			paths, pe := enumPaths(info, fi.Decl.Body.List, func(ast.Node) []Event { return nil })
+			if pe.overflow || len(pe.unsup) > 0 {
+				good = false
+			}
+			for _, p := range paths {
+				rs, ok := p.EndNode.(*ast.ReturnStmt)
+				if !ok || p.End != "return" {
+					good = false
+					continue
 				}
 				nret++
 				if len(rs.Results) != 1 {
 					good = false
-					return true
+					continue
 				}
-				lit, isLit := xl.formula(rs.Results[0]).(*FLit)
+				f := pe.xlatP(&p).formula(rs.Results[0])
+				zk, zflip := orderAtom(counter, "const:0")
+				lit, isLit := f.(*FLit)
+				if !isLit || lit.Atom != zk {
+					// a local holding the comparison: equivalent to counter > 0 on this path
+					want := &FLit{zk, 3, maskFor(token.GTR, zflip)}
+					if p.Entails(fnot(fand(f, fnot(want)))) && p.Entails(fnot(fand(want, fnot(f)))) {
+						continue
+					}
+				}
 				if !isLit {
 					good = false
-					return true
+					continue
 				}
-				zk, zflip := orderAtom(counter, "const:0")
 				ok0 := lit.Atom == zk && (lit.Mask == maskFor(token.GTR, zflip) || lit.Mask == maskFor(token.NEQ, zflip))
 				ok1 := false
 				if k1, f1 := orderAtom(counter, "const:1"); lit.Atom == k1 {
@@ -1240,8 +1272,7 @@ func ruleCounterPrimitives(c *Ctx) {
 				if !ok0 && !ok1 {
 					good = false
 				}
-				return true
-			})
+			}
 			good = good && nret >= 1
 			why = "expected: return counter[" + p0.Name() + "] > 0"
 		}
@@ -1308,7 +1339,28 @@ func ruleCounterCallers(c *Ctx) {
 		c.Sites += len(all)
 		c.check(len(bad) == 0 && len(all) > 0, rule, fi.Name, "callers", c.P.pos(fi.Decl.Pos()), "called only from "+strings.Join(all, ", "), "counter primitive called from unaudited code: "+strings.Join(bad, ", ")+" (audited: "+strings.Join(allow[name], ", ")+")")
 	}
-	// stores to the counter maps only inside the primitives
+	// stores to the counter maps only inside the primitives — or in a helper new to the rules that only the
+	// primitives call (an extracted piece of them)
+	cgW := c.P.callGraph()
+	var viaPrimitive func(d *types.Func, depth int) bool
+	viaPrimitive = func(d *types.Func, depth int) bool {
+		if (strings.HasPrefix(d.Name(), "inc") || strings.HasPrefix(d.Name(), "dec")) && recvTypeName(d) == "RIBHolder" && !isNewFunc(d) {
+			return true
+		}
+		if !isNewFunc(d) || depth >= 3 {
+			return false
+		}
+		cs := cgW.callersOf(d)
+		if len(cs) == 0 {
+			return false
+		}
+		for _, c2 := range cs {
+			if !viaPrimitive(c2, depth+1) {
+				return false
+			}
+		}
+		return true
+	}
 	for _, fld := range []string{"NextHop", "NextHopGroup"} {
 		fv := c.P.Field("rib", "niRefCounter", fld)
 		if fv == nil {
@@ -1338,7 +1390,7 @@ func ruleCounterCallers(c *Ctx) {
 						if isLoadOfField(mu.Map, fv) {
 							n++
 							d := declaredOf(f)
-							if d == nil || !(strings.HasPrefix(d.Name(), "inc") || strings.HasPrefix(d.Name(), "dec")) || recvTypeName(d) != "RIBHolder" {
+							if d == nil || !viaPrimitive(d, 0) {
 								nm := "?"
 								if d != nil {
 									nm = displayName(d)
